@@ -267,7 +267,7 @@ def gen_dyn_case(rng):
 
 def gen_eqw_case(rng):
     return dict(kind='eqw', scale=rng.choice([1.0, 2.0, 0.5, 0.0, 0, 1, rng.uniform(0.1, 3)]),
-                weights=[[a, rng.uniform(-1, 1)] for a in rng.sample(ALL, rng.randint(1, 7))])
+                weights=[[a, rng.choice([rng.uniform(-1, 1), rng.uniform(-1, 1), 1, 0, -1, 2, 0.0, 1.0])] for a in rng.sample(ALL, rng.randint(1, 7))])
 
 
 # ---------------------------------------------------------------------------------------------
@@ -722,6 +722,9 @@ def oracle_c09(case, real):
                 out.append(dict(what='allocation weight of %s is %r, alpha weight %r' % (a, al[a], aw[a]), key='alloc-value'))
     if real['out'] == 'ok' and real.get('alloc_records_added', 1) != 1:
         out.append(dict(what='one rebalance added %d allocation records' % real['alloc_records_added'], key='alloc-count'))
+    if real['out'] == 'ok' and real['target'] is None and A:
+        out.append(dict(what='orders %r were generated without asking the order sizer for the target of %r' % (real.get('orders'), A),
+                        key='sizer-not-consulted'))
     if real['out'] != 'ok' or real['target'] is None:
         return out
     tgt = dict((a, q) for a, q in real['target'])
